@@ -27,6 +27,8 @@ CHECKS = {
          "Fault sequences (node additions, removals, restarts, event bursts, host outages, pooled/control connection kills single and simultaneous, nodes that stop answering heartbeats) run over minutes to hours of simulated time; after the last fault, within the sum of the configured timeouts, probe requests must be served by exactly the backend's current cluster, removed nodes are no longer dialled, lost connections are replaced with dial gaps inside the back-off bounds that restart near the base after success, unresponsive connections are closed within idle+heartbeat+connect timeout, the control connection fails over, and OutageDuration is zero exactly while a control connection exists. The back-off calculator is swept natively over base/max configurations and 80 attempts.", "§7 C16"),
  "C13": ("deterministic simulation: generated connection histories over all version bytes, directions, opcodes, maxima and STARTUP option maps with a canary connection; one-frame-per-request and nothing-forwarded oracles",
          "Hostile connections send generated sequences of OPTIONS/STARTUP/REGISTER/requests with every version byte (0-127, both directions), valid and invalid opcodes and STARTUP option maps under every configured maximum version, each answered frame by frame: exactly one SUPPORTED/READY/ERROR, a protocol error naming the version for known versions outside [v3, max] with the connection still usable, error or close for unknown bytes, ERROR only for unsupported compression; a well-behaved second connection keeps decoding correct, uncompressed answers and the backends see nothing but its requests.", "§7 C13"),
+ "C03": ("deterministic simulation: protocol-grammar request/response generators (all option flags, versions v3/v4/v5/DSEv1/DSEv2, none/lz4/snappy, bodies up to 1 MiB) under scheduler-chosen fragmentation, concurrent clients and retries; byte-equality oracle modulo the stream id on every attempt",
+         "Requests produced by the reference codec over the protocol's option space and responses of every kind and error code (with tracing, warning and custom-payload flags, compressed or not) flow through the real proxy under fragmentation, several clients and scripted retries; the bytes every backend attempt receives and the bytes the client receives must equal what was sent except for header bytes 2-3, and no well-formed frame may cost the client its connection.", "§7 C03"),
 }
 
 NOT_APPLICABLE = {
